@@ -725,6 +725,7 @@ fn gen_json(t: &mut Tape, _tier: Tier) -> (String, Expect, Vec<String>) {
     for k in 0..ndecl {
         let records: Vec<usize> = (0..ty.decls.len()).filter(|i| matches!(ty.decls[*i], Decl::Record(_))).collect();
         if k == 0 || t.chance(1, 2) {
+            // records without fields cannot derive Serialize / Deserialize (a macro error, KF-C09-14)
             let nf = 1 + t.pick(5);
             let fs = (0..nf).map(|i| (format!("f{}", i), field_ty(t, &ty, 0))).collect();
             ty.decls.push(Decl::Record(fs));
